@@ -17,7 +17,7 @@ func init() {
 	core.Register(&core.Check{
 		ID:    "C14",
 		Level: "fault_enumeration",
-		Rule: "generated programs made of segments 'marker print - loop nest or call chain without any built-in call - marker print' with known iteration and call counts, terminating and endless (while true, unbounded recursion, looping handlers), with read, sleep, tests and graphics between segments; the uninterrupted run T is recorded with yield marks, then the program is re-run once per stop point k (every yield up to 300 per program in quick, up to 3000 in thorough, plus the last 50) with the stop flag raised inside yield #k, and once per effect with the flag raised from inside the platform call; oracles: density (yields between markers >= iterations + calls; never more than 64 evaluation steps without a yield on the hook) and stop (no yield after the stop, effects are T's prefix plus at most the step in flight, result 'stopped', only the test summary may follow). distinct = distinct (program, stop point) pairs",
+		Rule: "generated programs made of segments 'marker print - loop nest or call chain without any built-in call - marker print' with known iteration and call counts, terminating and endless (while true, unbounded recursion, looping handlers, idle loops whose body is a comment or blank line, at top level and in functions), with read, sleep, passing and failing tests and graphics between segments; the uninterrupted run T is recorded with yield marks, then the program is re-run once per stop point k (every yield up to 300 per program in quick, up to 3000 in thorough, plus the last 50) with the stop flag raised inside yield #k, and once per effect with the flag raised from inside the platform call; oracles: density (yields between markers >= iterations + calls; never more than 64 evaluation steps without a yield on the hook) and stop (no yield after the stop, effects are T's prefix plus at most the step in flight, result 'stopped', only the test summary may follow). distinct = distinct (program, stop point) pairs",
 		Assumptions: []string{
 			"a loop inside a built-in that neither yields nor passes through eval (D14's native repetition loop) is not reachable by this monitor",
 			"the stop flag is raised only from inside Yield or inside a platform call, as the browser does (single thread)",
@@ -42,7 +42,17 @@ func c14Segment(c *core.Ctx, id int, funcs *strings.Builder) c14Seg {
 	r := c.Rng
 	n := 1 + r.Intn(6)
 	v := fmt.Sprintf("i%d", id)
-	switch r.Intn(7) {
+	switch r.Intn(9) {
+	case 7:
+		c.Cover("segment", "for-empty-body")
+		body := []string{"    // idle\n", "\n", "    // a\n\n    // b\n"}[r.Intn(3)]
+		if r.Intn(2) == 0 {
+			return c14Seg{fmt.Sprintf("for range %d\n%send\n", n, body), n}
+		}
+		return c14Seg{fmt.Sprintf("for range %d\n    for range 2\n    %s    end\nend\nacc = acc + 1\n", n, body), n + 2*n}
+	case 8:
+		c.Cover("segment", "literal-conditions")
+		return c14Seg{fmt.Sprintf("for range %d\n    while true\n        // once\n        break\n    end\n    if true\n        // nothing\n    end\nend\n", n), 2 * n}
 	case 0:
 		c.Cover("segment", "while")
 		return c14Seg{fmt.Sprintf("%s := 0\nwhile %s < %d\n    %s = %s + 1\n    acc = acc + %s\nend\n", v, v, n, v, v, v), n}
@@ -95,7 +105,9 @@ func c14Program(c *core.Ctx) c14Prog {
 		seg := c14Segment(c, k, &funcs)
 		p.segs = append(p.segs, seg)
 		fmt.Fprintf(&body, "print \"M%d\"\n%sprint \"M%d\"\n", 2*k, seg.code, 2*k+1)
-		switch r.Intn(6) {
+		switch r.Intn(7) {
+		case 5:
+			body.WriteString("test 1 2\ntest false\n")
 		case 0:
 			body.WriteString("s = s + (read)\n")
 		case 1:
@@ -109,7 +121,17 @@ func c14Program(c *core.Ctx) c14Prog {
 		}
 	}
 	body.WriteString("print \"end\" acc s\n")
-	switch r.Intn(6) {
+	switch r.Intn(9) {
+	case 4:
+		p.kind = "idle-while"
+		body.WriteString("while true\n" + []string{"    // wait for events\n", "\n", "    // a\n\n"}[r.Intn(3)] + "end\n")
+	case 5:
+		p.kind = "idle-for"
+		body.WriteString("for range 1000000000\n    // busy wait\nend\n")
+	case 6:
+		p.kind = "idle-in-function"
+		funcs.WriteString("func idle\n    while true\n        // wait\n    end\nend\n")
+		body.WriteString("if acc >= 0\n    idle\nend\n")
 	case 0:
 		p.kind = "endless-while"
 		body.WriteString("while true\n    acc = acc + 1\nend\n")
@@ -146,10 +168,21 @@ func c14Run(c *core.Ctx, i int) {
 	}
 	conf := mon.NewConformance()
 	var rec *plat.Rec
+	starved := false
 	T := plat.Run(p.src, plat.Opts{Inputs: inputs, Events: p.events, YieldBudget: budget, MarkYields: true,
-		Attach:  func(ev *evaluator.Evaluator) { conf.Attach(ev) },
+		Attach: func(ev *evaluator.Evaluator) {
+			conf.Attach(ev)
+			// logical-time guard: a run that evaluates 20000 steps without reaching a yield cannot be
+			// interrupted by the platform; end it here (the stop flag is checked by the next step)
+			conf.StarveLimit = 20000
+			conf.OnStarve = func() { starved = true; ev.Stopped = true }
+		},
 		OnYield: func(int) { conf.Yielded() }})
 	rec = T.Rec
+	if starved {
+		c.Violation("density-starved", fmt.Sprintf("20000 evaluation steps without a single yield (%s): the platform cannot interrupt this program", p.kind), p.src, nil)
+		return
+	}
 	if T.Class == "parse-error" || T.Class == "gopanic" {
 		c.Violation("harness-program-failed", T.Class+": "+firstN(T.ErrText+T.GoPanic, 300), p.src, nil)
 		return
